@@ -1,3 +1,56 @@
+//! W7 — PTP clock estimator / controller world (DESIGN.md §4 "W7"): the real
+//! `statime_algo::KalmanController` (and, for duplicate-id histories, the real
+//! `EstimatorState` underneath it) driven by a seeded operation history over
+//! simulated steerable clocks. Decides C42 and C43.
+
+mod clock;
+mod ctl;
+mod est;
+mod view;
+
+use simkit::batch::{Level, Property, WorldDef, cli_main};
+
+fn run() {
+    // index 0 / false = the controller world (benign default)
+    if simkit::focus() == "C42" && simkit::chance("cfg.estimator-direct", 0.35) {
+        est::run()
+    } else {
+        ctl::run()
+    }
+}
+
 fn main() {
-    let _ = statime_algo::verif::filter_config(1.0, 1.0, 1.0, 1.0, 1);
+    let p = |id, rule| Property {
+        id,
+        level: Level::Exploration,
+        quick_runs: 60_000,
+        thorough_runs: 2_000_000,
+        quick_wall_s: 60.0,
+        thorough_wall_s: 600.0,
+        event_cap: 5_000,
+        enumerate: None,
+        rule,
+        assumptions: &[
+            "hardware/OS clocks are replaced by SimClock behind the statime_base::Clock trait (ground-truth offset/frequency, recorded calls, optional injected ClockErrors)",
+            "measurements are generated from ground-truth clock readings of simulated two-way exchanges (delay, asymmetry, noise, outliers); no PTP packets",
+            "measurement uncertainties are > 0 and clock max_frequency() values are positive and constant per clock",
+        ],
+    };
+    cli_main(WorldDef {
+        name: "w7",
+        run,
+        properties: vec![
+            p("C42", "one run = one seeded history of 20-400 controller operations (add/remove clock, external clock, tracked/untracked link, link drop, external data, measurements, time progression, clock meddling) on the real KalmanController, or (35 %) of 10-200 operations incl. duplicate ids on the real EstimatorState; before/after views of the private filter state are compared around every structural operation"),
+            p("C43", "one run = one seeded history of 20-400 controller operations on the real KalmanController with 1-4 SimClocks; every clock_frequency/clock_offset answer is compared with the private filter state, every set_frequency argument with that clock's max_frequency, and after every successful measurement call the estimates are compared with a replay of the same filter steps without steering plus the steps / frequency changes the clocks actually received"),
+        ],
+        real_components: &[
+            "statime_algo::KalmanController (add/remove clock, external clock, links, queries, steer_clocks)",
+            "statime_algo::KalmanLink (measurement, external_data_update, Drop)",
+            "statime_algo filter::LinkFilter, estimator::EstimatorState, link_noise::LinkNoiseEstimator, matrix, storage (Std and NoAlloc)",
+        ],
+        stub_components: &[
+            "steerable clocks -> SimClock (statime_base::Clock)",
+            "PTP message exchange -> ground-truth two-way exchanges producing Measurement values",
+        ],
+    })
 }
